@@ -139,7 +139,10 @@ class Sys(object):
                 key = ("unix", H.UNIX_PATH) if self.unix else ("inet", simos._real_socket.SOCK_STREAM, H.PORT)
                 if key in k.bound and k.bound[key].listening and not k.bound[key].closed:
                     self.bad("listener-still-open-after-close:%s" % kind, "")
-            if not live:
+            # closing the server ends its clients' connections BY ITSELF: whether or not the clients ever touch their end
+            # again (they may be idle for good), the server's side holds nothing and every hook has run
+            idle_live = [c for c in live if not getattr(c, "stalled", False)]
+            if not live or (ev[0] == "srvclose" and len(idle_live) == len(live)):
                 if acct["fds"] != 0:
                     self.bad("descriptors-left-after-close:%s:%d" % (kind, acct["fds"]) if kind != "forking" else
                              "descriptors-left-after-close:forking", "after %r: %r" % (ev, acct))
